@@ -221,7 +221,7 @@ def dispatch_cases(tier):
         for n in (1, 2, 3):
             for m in (2 * n + 3, 2 * n + 12):
                 for seed in range(8 if tier == "quick" else 40):
-                    out.append({"residual_function": fn, "n": n, "m": m, "seed": seed})
+                    out.append({"residual_function": fn, "n": n, "m": m, "seed": seed, "sign": 1 if seed % 3 else -1})
     return out
 
 
@@ -245,7 +245,7 @@ def prop_dispatch(case):
         "dataset": {"d": {"megacomplex": ["m"]}},
     }
     model, params = testmc.make_model(spec, {"r": rates})
-    y = rng.standard_normal(m) + 2
+    y = case.get("sign", 1) * (rng.standard_normal(m) + 2)  # negative data: the NNLS constraint is active (all clps zero for n = 1)
     ds = xr.DataArray(y[:, None], coords=[("model", t), ("global", [1.0])]).to_dataset(name="data")
     scheme = Scheme(model, params, {"d": ds}, maximum_number_function_evaluations=1)
     with expect_ok("dispatch.optimize"):
